@@ -118,6 +118,33 @@ def search(rep: C.Report, tier: str, broken):
                                        f"{ph} T={T} spline'={d1} diff={num}")
                 rep.obligation(f"oracle contract CubicSpline.derivative {ph} {sorted(params.items())} {TnFrac}",
                                "oracle-monitor", True, "7 points")
+    # ---- temperatures given as integers (Tn = 1800, thermo.dpHighT(2000), an np.int64 from a scan over np.arange) or as float32: every EOS function
+    # must return what it returns for the same temperature given as a Python float
+    for params in ((dict(u=3000.0),) if tier == "quick" else (dict(u=3000.0), dict(u=37.0))):
+        th, model, info = models.make_thermo("toy1", params, TnFrac=0.6)
+        for ph in ("HighT", "LowT"):
+            TMin, TMax = getattr(th, "TMin" + ph), getattr(th, "TMax" + ph)
+            fns = {nm: getattr(th, nm + ph) for nm in ("p", "dp", "ddp", "e", "de", "w", "csq")}
+            ints = sorted({int(round(TMin + f_ * (TMax - TMin))) for f_ in (0.13, 0.37, 0.52, 0.71, 0.9)})
+            for Ti in ints:
+                if not (TMin < Ti < TMax):
+                    continue
+                for typ in (int, np.int64, np.int32, np.float32):
+                    Tt = typ(Ti + 0.25) if typ is np.float32 else typ(Ti)
+                    Tf = float(Tt)
+                    rep.case(key=("temperature-type", str(sorted(params.items())), ph, typ.__name__, Ti))
+                    rep.count("temperature given as " + typ.__name__)
+                    for nm, fn in fns.items():
+                        try:
+                            a_, b_ = float(np.asarray(fn(Tt)).ravel()[0]), float(np.asarray(fn(Tf)).ravel()[0])
+                            bad_ = not abs(a_ - b_) <= 1e-11 * abs(b_)
+                            det = {"value": a_, "value_for_float": b_}
+                        except Exception as ex:  # noqa: BLE001
+                            bad_, det = True, {"error": f"{type(ex).__name__}: {str(ex)[:120]}"}
+                        if bad_:
+                            rep.violation(f"{nm}{ph} at a temperature given as {typ.__name__} differs from the value at the same temperature given as float",
+                                          dict(det, model="toy1", params=params, phase=ph, function=nm + ph, T=Tf, type=typ.__name__),
+                                          finding_key=f"C10:temperature-type:{nm}")
     # ---- the same Thermodynamics object after its phases were traced AGAIN (model parameters updated in place, as in a parameter scan that
     # re-uses the objects; derivatives had already been taken by setExtrapolate): p, dp, ddp must all belong to the NEW tables
     for dE in ((1.05,) if tier == "quick" else (1.05, 0.97, 1.10)):
